@@ -7,6 +7,8 @@
 
 #include <phosg/Strings.hh>
 
+#include <thread>
+
 #include "trace.hh"
 
 using namespace std;
@@ -89,7 +91,7 @@ static string comments_out(const string& s) {
   return "[" + js(a) + "," + (threw ? "1" : "0") + "]";
 }
 
-static void all_helpers(const vector<string>& strs, const string& alphabet, bool big) {
+static void all_helpers_here(const vector<string>& strs, const string& alphabet, bool big) {
   // one batch per (function, parameters)
   // max_splits: 0 (unlimited), small caps, and caps far beyond any piece count up to SIZE_MAX (logged capped at 10^9:
   // only the comparison with the number of delimiters matters)
@@ -247,7 +249,7 @@ static string run_printf(const vector<Seg>& segs) {
       return is_s(2) ? string_printf(f, ival(0), ival(1), sval(2)) : string_printf(f, ival(0), ival(1), ival(2));
   }
 }
-static void printf_cases(vt::Rng& r, int count, bool huge) {
+static void printf_cases_here(vt::Rng& r, int count, bool huge) {
   Batch b("printf", "{}");
   auto rs = [&](size_t len) {
     string s;
@@ -311,6 +313,22 @@ static void printf_cases(vt::Rng& r, int count, bool huge) {
     emit(segs);
   }
   b.flush();
+}
+
+// Every other batch runs on a freshly started second thread (the first batch on the main thread): results may not depend
+// on which thread asks, or on which thread asked first (lazily built tables, thread-local scratch buffers)
+static unsigned g_batch = 0;
+static void all_helpers(const vector<string>& strs, const string& alphabet, bool big) {
+  if (g_batch++ % 2) {
+    std::thread t([&] { all_helpers_here(strs, alphabet, big); });
+    t.join();
+  } else
+    all_helpers_here(strs, alphabet, big);
+}
+static void printf_cases(vt::Rng& r, int count, bool huge) {
+  printf_cases_here(r, count / 2, huge);
+  std::thread t([&] { printf_cases_here(r, count - count / 2, huge); });
+  t.join();
 }
 
 int main(int argc, char** argv) {
